@@ -24,8 +24,11 @@ for sd in seeds:
         subprocess.run(["git", "-C", "/repo", "worktree", "add", "-q", "--detach", wt, "HEAD"], check=True)
         try:
             subprocess.run(["git", "-C", wt, "apply", str(sd / "patch.diff")], check=True)
-            r = subprocess.run(["./check", pid, "quick"], cwd=V, capture_output=True, text=True, timeout=1800,
-                               env=dict(os.environ, CBI_REPO=wt))
+            try:
+                r = subprocess.run(["./check", pid, "quick"], cwd=V, capture_output=True, text=True, timeout=1800,
+                                   env=dict(os.environ, CBI_REPO=wt))
+            except subprocess.TimeoutExpired:
+                r = subprocess.CompletedProcess([], 2, "  check timed out after 1800 s\n", "")
         finally:
             subprocess.run(["git", "-C", "/repo", "worktree", "remove", "--force", wt])
     else:
